@@ -265,9 +265,9 @@ FAMILIES = {
     # family: list of (variant, sample or None)
     "vhd": [("fixed", "fixed.vhd.gz"), ("dynamic", "dynamic.vhd.gz")],
     "vhdx": [("fixed", "fixed.vhdx.gz"), ("dynamic", "dynamic.vhdx.gz"), ("dynamic-path", "dynamic.vhdx.gz"),
-             ("differencing-path", "differencing.avhdx.gz")],
+             ("differencing-path", "differencing.avhdx.gz"), ("differencing-path-parent-present", "differencing.avhdx.gz")],
     "vmdk": [("sesparse", "sesparse.vmdk.gz"), ("sesparse-path", "sesparse.vmdk.gz"), ("flat-descriptor", None),
-             ("flat-descriptor-parent", None), ("handle-list", None)],
+             ("flat-descriptor-parent", None), ("flat-descriptor-parent-present", None), ("handle-list", None)],
     "hdd": [("plain", "plain.hdd"), ("expanding", "expanding.hdd"), ("split", "split.hdd")],
     "qcow2": [("synthetic", None), ("synthetic-64k", None)],
     "vdi": [("synthetic", None)],
@@ -396,8 +396,26 @@ class AuditSuite(Suite):
             paths["main"] = materialise_sample(sample, root)
             if variant == "differencing-path":
                 paths["parent"] = materialise_sample("dynamic.vhdx.gz", root)
+            if variant == "differencing-path-parent-present":
+                # the sample's parent locator names this file (relative path): the library opens it by path itself
+                p0 = materialise_sample("dynamic.vhdx.gz", root)
+                paths["parent"] = os.path.join(root, "Generation 1_49C4BAF3-4B25-4406-8C4B-D39E65C32385.avhdx")
+                os.rename(p0, paths["parent"])
         if fam == "vmdk" and variant.startswith("flat-descriptor"):
-            paths["main"] = build_vmdk_descriptor(root, parent=variant.endswith("parent"))
+            if variant.endswith("parent-present"):
+                # child in <root>/child, parent in the sibling directory <root>/base: found through the second candidate
+                # of vmdk.open_parent (path.parent / <last directory of the hint> / <file name>)
+                child, base = os.path.join(root, "child"), os.path.join(root, "base")
+                os.makedirs(child)
+                os.makedirs(base)
+                os.rename(build_vmdk_descriptor(base), os.path.join(base, "missing-parent.vmdk"))
+                paths["main"] = build_vmdk_descriptor(child, parent=True)
+                txt = open(paths["main"]).read().replace('parentFileNameHint="missing-parent.vmdk"',
+                                                         'parentFileNameHint="C:\\vm\\base\\missing-parent.vmdk"')
+                with open(paths["main"], "w") as o:
+                    o.write(txt)
+            else:
+                paths["main"] = build_vmdk_descriptor(root, parent="parent" in variant)
         if fam == "vmdk" and variant == "handle-list":
             build_vmdk_descriptor(root)
             paths["main"] = os.path.join(root, "disk-f001.vmdk")
@@ -562,7 +580,7 @@ class AuditSuite(Suite):
                     fs.append(Finding("impl_vs_model", f"{tag}: open of {ev[1]} (mode {ev[2]}) at {rel}:{line} in {fn} is not in the "
                                       f"static inventory Gen/Effects.v", "c09:inventory-miss"))
         if case["damage"] == "none" and not impl_res["outcome"].startswith("ok") and \
-                not (case["variant"] in ("differencing-path", "flat-descriptor-parent", "cli")):
+                not (case["variant"] in ("differencing-path", "flat-descriptor-parent", "cli", "differencing-path-parent-present")):
             fs.append(Finding("coq_error", f"{tag}: undamaged workload failed ({impl_res['outcome']}): the audit did not cover it",
                               "c09:workload"))
         return fs
